@@ -401,6 +401,17 @@ func init() {
 			}
 			return Tuple{ts.Bool(m), Iface{}}
 		}
+		if ok1 {
+			// concrete pattern, symbolic subject: exact NFA encoding
+			ro, err := compileRe(cp)
+			if err != nil {
+				p.logs["re"] = append(p.logs["re"], Tuple{pat, sub, ts.False, ts.True})
+				return Tuple{ts.False, p.errorValue(p.e.strOf("regexp: " + err.Error()))}
+			}
+			m := p.matchTerm(ro, sub.b)
+			p.logs["re"] = append(p.logs["re"], Tuple{pat, sub, m, ts.False})
+			return Tuple{m, Iface{}}
+		}
 		m := p.newInput("re.match", BoolSort)
 		e := p.newInput("re.err", BoolSort)
 		p.logs["re"] = append(p.logs["re"], Tuple{pat, sub, m, e})
